@@ -235,6 +235,13 @@ def count_matrices(tier, rng, boost=1):
     for m_, extra in ((24, [[1]]), (27, [[0]])) if tier == 'quick' else ((24, [[1]]), (27, [[0]]), (33, [[1]]), (40, [[1]])):
         dense = [[1 + ((i * 7 + j * 3) % 3) for j in range(m_)] for i in range(m_)]
         yield block_diag([dense, extra]), 'big_reducible'
+    # rare bridges: the matrix is connected only through ONE transition of small probability p = 1/N (far above the 1e-8 connectivity threshold of the
+    # library; stationary probabilities stay >= 1e-6): a verdict that changes when p is treated as zero shows a wrong threshold
+    for N_ in (1000, 10000, 100000, 400000):
+        yield [[N_ - 1, 1, 0], [1, 1, 0], [0, 1, 1]], 'rare_bridge'                 # 0 -> 1 rare; irreducible? no: 2 is transient -> mask {0, 1}
+        yield [[N_ - 1, 1], [1, 1]], 'rare_bridge'                                  # ergodic only through the rare step
+        yield [[N_ - 1, 1, 0], [0, 1, 1], [1, 0, 1]], 'rare_bridge'                 # a 3-cycle with self loops, one rare edge
+        yield [[1, 1, 0], [N_ - 1, 0, 1], [0, 1, 1]], 'rare_bridge'                 # rare exit to a second part
     nrand = {'quick': 400, 'thorough': 6000, 'search': 1500}[tier] * boost
     for _ in range(nrand):
         kind = rng.choice(['irr', 'irr_per', 'two_closed', 'tie', 'transient', 'absorbing', 'unvisited', 'never_entered', 'mixed'])
